@@ -141,18 +141,46 @@ func Run(sc *uw.Scenario) *simkit.Outcome {
 		out.Harness = "arena: " + err.Error()
 		return out
 	}
+	for ai := range sc.Archives {
+		if d := sc.Archives[ai].Dst; d != "" {
+			if err := BuildArena(d); err != nil {
+				out.Harness = "arena: " + err.Error()
+				return out
+			}
+		}
+	}
+	for _, f := range []string{"/w/shared/keep", "/w/deep2/shared/keep"} {
+		os.MkdirAll(filepath.Dir(f), 0o755)
+		os.WriteFile(f, []byte("OUT-shared"), 0o644)
+	}
 	syscall.Umask(sc.Umask)
 	defer syscall.Umask(0o022)
-	dstClean := strings.TrimRight(sc.Dst, "/")
-	realDst, _, _ := simkit.ResolvePhysical(dstClean)
-
-	m := model.NewUWModel(sc.Dst, sc.Allow)
-	modelValid := true // model tree still describes dst exactly
+	type dstState struct {
+		m     *model.UWModel
+		valid bool // model tree still describes this destination exactly
+	}
+	dsts := map[string]*dstState{}
 	states := map[string]bool{}
 	decorated := false
+	var shared *slug.Packer
+	if sc.SharedPacker {
+		shared, _ = slug.NewPacker(allowOpts(sc.Allow)...)
+	}
 
 	for ai := range sc.Archives {
 		ar := &sc.Archives[ai]
+		dst := sc.Dst
+		if ar.Dst != "" {
+			dst = ar.Dst
+		}
+		if dsts[dst] == nil {
+			dsts[dst] = &dstState{m: model.NewUWModel(dst, sc.Allow), valid: true}
+		}
+		ds := dsts[dst]
+		m := ds.m
+		modelValid := ds.valid
+		dstClean := strings.TrimRight(dst, "/")
+		realDst, _, _ := simkit.ResolvePhysical(dstClean)
 		wasValid := modelValid
 		raw, err := ar.BuildTar()
 		if err != nil {
@@ -205,12 +233,16 @@ func Run(sc *uw.Scenario) *simkit.Outcome {
 					pan = r
 				}
 			}()
-			p, perr := slug.NewPacker(allowOpts(sc.Allow)...)
-			if perr != nil {
-				uerr = perr
-				return
+			p := shared
+			if p == nil {
+				var perr error
+				p, perr = slug.NewPacker(allowOpts(sc.Allow)...)
+				if perr != nil {
+					uerr = perr
+					return
+				}
 			}
-			uerr = p.Unpack(rd, sc.Dst)
+			uerr = p.Unpack(rd, dst)
 		}()
 		after := simkit.Snapshot(dstClean)
 		es := "nil"
@@ -374,6 +406,10 @@ func Run(sc *uw.Scenario) *simkit.Outcome {
 		}
 		if uerr == nil && countKind(classes, model.ClOK) >= 2 {
 			out.Probe("multi-entry-success")
+		}
+		ds.valid = modelValid
+		if ar.Dst != "" && shared != nil {
+			out.Probe("shared-packer-second-destination")
 		}
 	}
 	for s := range states {
